@@ -211,6 +211,19 @@ func validateArray(val reflect.Value, opts *options) error {
 	return nil
 }
 
+// derefValue returns the value a non-nil pointer (of any depth) points to, so
+// that a validator sees the same value for a field and for a pointer to it.
+func derefValue(v interface{}) interface{} {
+	val := reflect.ValueOf(v)
+	for val.Kind() == reflect.Ptr {
+		if val.IsNil() {
+			return v
+		}
+		val = val.Elem()
+	}
+	return val.Interface()
+}
+
 // validateNonZero implements the `nonzero` validation tag.
 // If nonzero is set, the validator is only run if field is present in config.
 // It checks for numbers and durations to be != 0, and for strings/arrays/slices
@@ -219,6 +232,7 @@ func validateNonZero(v interface{}, name string) error {
 	if v == nil {
 		return nil
 	}
+	v = derefValue(v)
 
 	if d, ok := v.(time.Duration); ok {
 		if d == 0 {
@@ -252,6 +266,7 @@ func validatePositive(v interface{}, _ string) error {
 	if v == nil {
 		return nil
 	}
+	v = derefValue(v)
 
 	if d, ok := v.(time.Duration); ok {
 		if d < 0 {
@@ -281,6 +296,7 @@ func validateMin(v interface{}, param string) error {
 	if v == nil {
 		return nil
 	}
+	v = derefValue(v)
 
 	if d, ok := v.(time.Duration); ok {
 		min, err := param2Duration(param)
@@ -331,6 +347,7 @@ func validateMax(v interface{}, param string) error {
 	if v == nil {
 		return nil
 	}
+	v = derefValue(v)
 
 	if d, ok := v.(time.Duration); ok {
 		max, err := param2Duration(param)
